@@ -113,6 +113,8 @@ class Interp:
         if e == "*":
             if isinstance(v, Ref):
                 return self.read(v.frame, v.place)
+            if isinstance(v, str):
+                return v  # &'static str constant: the referent is the string itself
             raise Abort("deref of non-reference %r in %s" % (v, frame.fn.path))
         if isinstance(e, dict):
             if "f" in e:
@@ -195,7 +197,7 @@ class Interp:
             ops = [self.operand(frame, o) for o in rv["ops"]]
             if rv.get("adt"):
                 return mk_adt(rv["adt"].split("::")[-1], rv["variant"], dict(zip(rv["fields"], ops)))
-            if rv.get("tuple"):
+            if rv.get("tuple") or rv.get("array"):
                 return ops
             raise Abort("unsupported aggregate %r" % rv)
         if r == "un":
